@@ -148,9 +148,9 @@ def runs_c12(tier):
         S.suite_ple_recursive(g, n(tier, 8, 150))       # block-recursive PLE regime of the small-cache configurations
     # a last-level cache of 768 MiB (large server parts): cache-size arithmetic beyond 2^29 bytes
     HUGE = dict(DEF, l2=2097152, l3=805306368)
-    cfgs = [DEF, SC, SC_NOSSE, MID, B.thread_safe(SC), dict(SC, l1=4096, l2=262144, l3=1048576), HUGE, ODD]
+    cfgs = [DEF, SC, SC_NOSSE, MID, B.thread_safe(SC), HUGE, ODD]
     if tier != Q:
-        cfgs += [DEF_NOSSE, B.thread_safe(DEF), dict(DEF, l1=4096), dict(MID, sse2=0), dict(SC, l2=65536),
+        cfgs += [dict(SC, l1=4096, l2=262144, l3=1048576), DEF_NOSSE, B.thread_safe(DEF), dict(DEF, l1=4096), dict(MID, sse2=0), dict(SC, l2=65536),
                  B.with_openmp(SC), B.with_openmp(DEF), dict(DEF, l2=4194304, l3=1 << 30), dict(DEF, l2=4194304, l3=1 << 32)]
     # identical seeded cases under every configuration (the check driver seeds per run index, so force one seed)
     return [(c, None, s, [], 'same-seed') for c in cfgs]
